@@ -67,6 +67,13 @@ def solver_config(spy, backend):
             yield
         finally:
             spy.fail_all = False
+    elif backend and backend.startswith("onejobfails"):
+        # 'onejobfails3': the third alignment job of the computation finds no usable solver (both CBC and GLPK fail for it)
+        spy.fail_job, spy.job_calls, spy._doomed_thread = int(backend[len("onejobfails"):]), 0, None
+        try:
+            yield
+        finally:
+            spy.fail_job = None
     elif backend and backend.startswith("cbcfail"):
         spy.fail_cbc = True if backend == "cbcfail" else int(backend[len("cbcfail"):])
         spy.cbc_calls = 0
